@@ -451,6 +451,26 @@ func (f *Fn) failArms(l Loc) ([]*cfg.Block, string) {
 	return nil, "no check of the error variable follows the call"
 }
 
+// errCheckLoc returns the location of the branch condition that tests the error of the call at l
+// (same search as failArms).
+func (f *Fn) errCheckLoc(l Loc) *Loc {
+	v := f.errVarOf(l)
+	if v == nil {
+		return nil
+	}
+	b := l.Blk
+	for hops := 0; hops < 3; hops++ {
+		if c := condOf(b); c != nil {
+			return &Loc{Blk: b, Idx: len(b.Nodes) - 1, Seq: 0, Node: c}
+		}
+		if len(b.Succs) != 1 {
+			return nil
+		}
+		b = b.Succs[0]
+	}
+	return nil
+}
+
 // Gate: b is only executed after a returned a nil error: a ≺ b, a's error is tested right
 // after the call, and b is not reachable from the failing arm without running a again.
 func (f *Fn) Gate(rule string, a, b Matcher) bool {
@@ -481,6 +501,14 @@ func (f *Fn) Gate(rule string, a, b Matcher) bool {
 			start := Loc{Blk: arm, Idx: -1, Seq: -1}
 			if p, t := f.search(&start, bs, as); p != nil {
 				f.C.Fail(rule, f.Where(), what, f.At(*t), fmt.Sprintf("%s at %s reachable from the failing arm of %s at %s: %s", b.Desc, f.At(*t), a.Desc, f.At(al), f.pathString(p)))
+				return false
+			}
+		}
+		// b must not run between the call and the test of its error
+		if ck := f.errCheckLoc(al); ck != nil {
+			al := al
+			if p, t := f.search(&al, bs, []Loc{*ck}); p != nil {
+				f.C.Fail(rule, f.Where(), what, f.At(*t), fmt.Sprintf("%s at %s runs after %s at %s but before its error is tested: %s", b.Desc, f.At(*t), a.Desc, f.At(al), f.pathString(p)))
 				return false
 			}
 		}
